@@ -56,11 +56,18 @@ func Gen() *rapid.Generator[Case] {
 			maxOps = 120
 		}
 		// "reader storm": most operations read keys that live only in tables while rotate+compact cycles replace those tables
-		storm := rapid.IntRange(0, 3).Draw(t, "storm") == 0
+		scenario := rapid.IntRange(0, 5).Draw(t, "scenario")
+		storm := scenario == 0
+		// "install window": read-heavy clients on keys whose newest value sits in the memstore that is being flushed, while
+		// the flusher is repeatedly parked and released (each release is followed by the installation of a table)
+		install := scenario == 1 || scenario == 2
 		for i := 0; i < nc; i++ {
 			n := rapid.IntRange(10, maxOps).Draw(t, "nops")
 			if storm {
 				n = maxOps * 2
+			}
+			if install {
+				n = maxOps * 3
 			}
 			var ops []COp
 			for j := 0; j < n; j++ {
@@ -68,6 +75,9 @@ func Gen() *rapid.Generator[Case] {
 				k := rapid.IntRange(0, 9).Draw(t, "opkind")
 				if storm && i > 0 && k < 7 {
 					k = 9
+				}
+				if install && k < 5 && rapid.IntRange(0, 3).Draw(t, "mostlyreads") > 0 {
+					k = 5 // turn three quarters of the writes into reads of hot keys
 				}
 				switch {
 				case k < 4:
@@ -99,6 +109,13 @@ func Gen() *rapid.Generator[Case] {
 			c.Chaos = append(c.Chaos, Chaos{Op: "wait", N: rapid.IntRange(5, 60).Draw(t, "w1")}, Chaos{Op: "release"})
 		}
 		nf := rapid.IntRange(1, 10).Draw(t, "nchaos")
+		if install {
+			c.Chaos = nil
+			for i := 0; i < 10; i++ {
+				c.Chaos = append(c.Chaos, Chaos{Op: "park-flush"}, Chaos{Op: "rotate"}, Chaos{Op: "wait", N: rapid.IntRange(4, 20).Draw(t, "iw1")},
+					Chaos{Op: "release"}, Chaos{Op: "wait", N: rapid.IntRange(4, 20).Draw(t, "iw2")})
+			}
+		}
 		if storm {
 			c.Ticker = false
 			c.Thresh = 0
@@ -245,17 +262,25 @@ type Result struct {
 func Run(c Case, dir string) (*Result, *h.Violation) {
 	prev := runtime.GOMAXPROCS(c.Procs)
 	defer runtime.GOMAXPROCS(prev)
-	g := &gate{dir: dir, release: make(chan struct{})}
+	g := &gate{dir: dir}
 	sstables.VerifSetWriterOpenHook(g.hook)
 	defer sstables.VerifSetWriterOpenHook(nil)
-	released := false
+	// the gate can be armed and released repeatedly: arming creates a fresh channel, releasing closes it
 	releaseGate := func() {
 		g.mu.Lock()
 		g.park = ""
-		if !released {
+		if g.release != nil {
 			close(g.release)
-			released = true
+			g.release = nil
 		}
+		g.mu.Unlock()
+	}
+	armGate := func(what string) {
+		g.mu.Lock()
+		if g.release == nil {
+			g.release = make(chan struct{})
+		}
+		g.park = what
 		g.mu.Unlock()
 	}
 	defer releaseGate()
@@ -367,13 +392,9 @@ func Run(c Case, dir string) (*Result, *h.Violation) {
 					}()
 				}
 			case "park-flush":
-				g.mu.Lock()
-				g.park = "flush"
-				g.mu.Unlock()
+				armGate("flush")
 			case "park-compact":
-				g.mu.Lock()
-				g.park = "compact"
-				g.mu.Unlock()
+				armGate("compact")
 			case "release":
 				releaseGate()
 			}
